@@ -396,8 +396,17 @@ func groundQuery(o *Obligation, narrow bool) ([]*Term, *Term, bool) {
 				b2 = 600
 			}
 			empty := &candSet{}
+			// the new values first, then the goal's own skolem constants (needed by inner quantifiers of an
+			// assumption whose outer variable takes a new value)
+			var sk []Val
+			for _, v := range extra {
+				if len(v.L) > 0 && v.L[0].Op == OVar && (strings.HasPrefix(v.L[0].Name, "sk_") || strings.HasPrefix(v.L[0].Name, "wit_")) {
+					sk = append(sk, v)
+				}
+			}
+			both := append(append([]Val{}, more...), sk...)
 			for _, p := range quantified {
-				as = append(as, instantiate(p, empty, more, &b2)...)
+				as = append(as, instantiate(p, empty, both, &b2)...)
 			}
 		}
 	}
